@@ -26,11 +26,11 @@ A = ("C01",)
 CURATED = {
     "weights": {
         "Dispersion.__init__": ("C02",), "Dispersion.set_weights": ("C02",),
-        "Dispersion.get_weights": ("C01", "C02", "C05", "C10"), "Dispersion._linspace": ("C01", "C02"),
+        "Dispersion.get_weights": ("C01", "C02", "C05", "C06", "C07", "C10", "C14",), "Dispersion._linspace": ("C01", "C02"),
         "GaussianDispersion._weights": ("C02",), "UniformDispersion._weights": ("C02",), "RectangleDispersion._weights": ("C02",),
         "LogNormalDispersion._weights": ("C02",), "SchulzDispersion._weights": ("C02",), "BoltzmannDispersion._weights": ("C02",),
         "ArrayDispersion.__init__": ("C02",), "ArrayDispersion.set_weights": ("C02", "C10"), "ArrayDispersion._weights": ("C02", "C10"),
-        "get_weights": ("C01", "C02", "C10"),
+        "get_weights": ("C01", "C02", "C05", "C07", "C10", "C14",),
     },
     "resolution": {
         "Perfect1D.__init__": ("C03",), "Perfect1D.apply": ("C03",), "Pinhole1D.__init__": ("C03", "C04"), "Pinhole1D.apply": ("C03",),
@@ -55,13 +55,13 @@ CURATED = {
         "_MixtureParts._part_details": ("C08",), "_MixtureParts._part_values": ("C08",),
     },
     "direct_model": {
-        "call_kernel": ("C01", "C07", "C08", "C10",), "call_Fq": ("C07", "C11", "C14",), "get_mesh": ("C01", "C02", "C05", "C07", "C08", "C10", "C11",), "_pop_par_weights": ("C01", "C02", "C05", "C10", "C11",),
+        "call_kernel": ("C01", "C05", "C06", "C07", "C08", "C09", "C10", "C16",), "call_Fq": ("C07", "C09", "C11", "C14", "C16",), "get_mesh": ("C01", "C02", "C05", "C06", "C07", "C08", "C09", "C10", "C11", "C14", "C16",), "_pop_par_weights": ("C01", "C02", "C05", "C06", "C07", "C08", "C10", "C11", "C14",),
         "_make_sesans_transform": ("C19",), "DataMixin._interpret_data": ("C03", "C10"), "DataMixin._calc_theory": ("C03", "C07", "C10", "C11", "C19",),
         "DirectModel.__init__": ("C10",), "DirectModel.__call__": ("C10",), "_direct_calculate": ("C10",), "Iq": ("C10",), "Iqxy": ("C10",),
         "Gxi": ("C10", "C19"),
     },
     "details": {
-        "CallDetails.__init__": ("C01",), "make_details": ("C01", "C05", "C08",), "make_kernel_args": ("C01", "C05", "C06", "C07", "C08", "C10", "C11",),
+        "CallDetails.__init__": ("C01", "C05", "C06", "C07",), "make_details": ("C01", "C05", "C06", "C07", "C08", "C09", "C14",), "make_kernel_args": ("C01", "C05", "C06", "C07", "C08", "C09", "C10", "C11", "C14", "C16",),
         "correct_theta_weights": ("C01", "C05",), "convert_magnetism": ("C06", "C08",), "dispersion_mesh": ("C01", "C10"),
     },
     "kerneldll": {
@@ -92,9 +92,9 @@ CURATED = {
         "make_source": ("C09", "C16", "C17"), "load_template": ("C17",), "model_sources": ("C17",), "_add_source": ("C17",), "kernel_name": ("C17",),
     },
     "modelinfo": {
-        "make_parameter_table": ("C09",), "parse_parameter": ("C09",), "ParameterTable.__init__": ("C01", "C05", "C06", "C09", "C10",), "ParameterTable.check_angles": ("C05", "C09",),
-        "ParameterTable.check_duplicates": ("C09",), "ParameterTable._set_vector_lengths": ("C01", "C09",), "ParameterTable._get_call_parameters": ("C01", "C06", "C09",),
-        "ParameterTable._get_defaults": ("C10",), "make_model_info": ("C09",), "derive_table": ("C16",), "_insert_after": ("C16",), "_simple_insert": ("C16",),
+        "make_parameter_table": ("C09", "C16",), "parse_parameter": ("C09", "C16",), "ParameterTable.__init__": ("C01", "C05", "C06", "C07", "C08", "C09", "C10", "C16",), "ParameterTable.check_angles": ("C05", "C09",),
+        "ParameterTable.check_duplicates": ("C09",), "ParameterTable._set_vector_lengths": ("C01", "C09",), "ParameterTable._get_call_parameters": ("C01", "C06", "C07", "C08", "C09", "C16",),
+        "ParameterTable._get_defaults": ("C10",), "make_model_info": ("C09", "C16",), "derive_table": ("C16",), "_insert_after": ("C16",), "_simple_insert": ("C16",),
     },
     "convert": {
         "_rescale": ("C20",), "_is_sld": ("C20",), "_rescale_sld": ("C20",), "_get_translation_table": ("C20",), "_dot_pd_to_underscore_pd": ("C20",),
